@@ -28,13 +28,16 @@ PROPS = {
                       "helpers (_update_existing_object, _reuse_previous_object, _new_segment_object, "
                       "_reuse_previous_segment_metadata) each against one step of the same specification for an object "
                       "list of any length and any position in it (no shape enumeration); the loop over the listed objects "
-                      "of a segment that starts a new object list for any number of listed objects (inductive "
-                      "invariant); FRAME obligations: "
+                      "for any number of listed objects, any number of carried-over objects and a reader memory of any "
+                      "size (inductive invariant: iteration k performs exactly the specification's step for entry k); "
+                      "FRAME obligations: "
                       "earlier segments' lists and objects are never modified; forbidden encodings raise ValueError; "
                       "runtime contract: explicit / incremental / metadata-less encodings of random files read alike.",
-                note="the loop over the listed objects of a segment that carries a previous list over is shape-bounded "
-                     "in the number of objects (values, paths, flags symbolic); each helper is proved as one step of "
-                     "the specification without a bound; unique paths within an object list are a precondition",
+                note="each iteration and each helper is proved as one step of the specification without a bound; that "
+                     "the fold of the steps equals spec.inherit.denote of the whole entry list is machine-checked for "
+                     "<= 3 listed / <= 3 previous objects (values, paths, flags symbolic) and argued by induction "
+                     "beyond; the path index cache is shape-bounded; unique paths within an object list and within "
+                     "one segment's entries are a precondition",
                 assumptions=["copy.copy is a shallow field copy", "ObjectListKey hash consistency (eq => equal hash) by "
                              "construction of the xor fold"]),
     "C03": dict(level="other",
